@@ -315,6 +315,19 @@ def runSched (j : Json) : Json :=
         (List.range (L - b + 1).toNat).all (fun k =>
           let i := b + (k : Int)
           !(e.onShift r i && !e.leaveMark r i) || !(σ.led.get r i).usage.isEmpty || exhaustedB e σ t r i))))
+  -- C07.alternative_earliest_fit, with the loop's own order
+  let altFitFail := altIdleTasks.filter (fun t =>
+    let pre := (order.dropWhile (fun x => x != t)).drop 1
+    !(order.contains t && ((e.taskD t).alloc ++ (e.taskD t).alt).any (fun r =>
+      let booked := (σ.led.m.toList.filter (fun (ks : Key × Slot) => ks.1.1 == r && (usageOf ks.2.usage t).isSome)).map (fun ks => ks.1.2)
+      let b := boundSlot e σ t
+      match booked.foldl (fun (m : Option Int) i => match m with | none => some i | some x => some (max x i)) none with
+      | none => false
+      | some L =>
+        (List.range (L - b + 1).toNat).all (fun k =>
+          let i := b + (k : Int)
+          !(e.onShift r i && !e.leaveMark r i) || (usageOf (σ.led.get r i).usage t).isSome ||
+            pre.any (fun t' => (usageOf (σ.led.get r i).usage t').isSome) || exhaustedB e σ t r i))))
   -- C06.framed_with_alternative: framed on one of the two candidates
   let altFrameFail := altTasks.filter (fun t =>
     !(((e.taskD t).alloc ++ (e.taskD t).alt).any (fun r => framedB e σ t r)))
@@ -371,6 +384,7 @@ def runSched (j : Json) : Json :=
                          ("alt_tasks", Json.num (JsonNumber.fromNat altTasks.length)), ("alt_effort_fail", Json.num (JsonNumber.fromNat altFail.length)),
                          ("alt_framed_fail", Json.num (JsonNumber.fromNat altFrameFail.length)),
                          ("alt_idle_tasks", Json.num (JsonNumber.fromNat altIdleTasks.length)), ("alt_idle_fail", Json.num (JsonNumber.fromNat altIdleFail.length)),
+                         ("alt_fit_fail", Json.num (JsonNumber.fromNat altFitFail.length)),
                          ("teams_any", Json.num (JsonNumber.fromNat anyTeams.length)), ("team_same_fail", Json.num (JsonNumber.fromNat sameFail.length)),
                          ("fwd_scheduled", Json.num (JsonNumber.fromNat fwds.length)), ("dep_edges", Json.num (JsonNumber.fromNat depPairs.length)),
                          ("dep_fail", Json.num (JsonNumber.fromNat depFail.length)),
